@@ -131,6 +131,14 @@ def gen_plan(tape, cfg):
             o["pause"] = tape.choice([0.0, 0.0, 30.0], "pause")
         if k == "get_values":
             o["many"] = tape.choice([0, 0, 4, 7, 200], "get_values.many")
+            # only some of the symbols are asked now; a later op (after another solve, possibly won by
+            # another member with another model) asks all of them and checks them together
+            o["partial"] = tape.chance(1, 3, "get_values.partial")
+            if o["partial"]:
+                ops.append(o)
+                ops.append({"op": "solve"})
+                nsolves += 1
+                o = {"op": "get_values", "pause": tape.choice([0.0, 30.0], "pause2"), "many": 0, "partial": False}
         if k in ("solve", "shortcut") or k in ONESHOT:
             nsolves += 1
         ops.append(o)
@@ -478,7 +486,12 @@ def execute(plan, tape):
                     bp.symbols_of(f, syms)
                 a = {}
                 died = False
-                for n in syms:
+                asked = list(syms)
+                if o.get("partial"):
+                    asked = sorted(n for n in syms if n in known)
+                    asked = asked[:max(1, len(asked) // 2)]
+                    probe("get_values_partial")
+                for n in asked:
                     if n in known:
                         try:
                             v = api("get_value", pf.get_value, mgr.get_symbol(n))
@@ -508,7 +521,7 @@ def execute(plan, tape):
                 if died:
                     extra, sat_mode = [], False
                     continue
-                if any(n not in known for n in syms):
+                if o.get("partial") or any(n not in known for n in syms):
                     continue
                 if syms and o.get("many"):
                     # one get_values() call with repeated terms (optionally very many of them): every
